@@ -264,10 +264,15 @@ def units(tier, seed):
     out.append(("raw-decoders", {}))
     out.append(("der-mutations", {"full": tier != "quick"}))
     out.append(("der-random", {"examples": 3000 if tier == "quick" else 50000}))
+    out.append(("faults", {"jobset": 'sig', "arg": None, "examples": 40 if tier == "quick" else 1500, "triples": 400 if tier == "quick" else 20000}))
     return out
 
 
 def run_unit(ctx, name, **kw):
+    if name == "faults":
+        from . import faults
+        faults.run_set(ctx, **kw)
+        return
     if name == "interleaved":
         from .purity import interleaved_pure
         interleaved_pure(ctx, "codecs", [U, D], _interleaved_jobs(), kw["stride"], max_schedules=kw["max"])
@@ -370,6 +375,10 @@ def run_unit(ctx, name, **kw):
 
 
 def replay(ctx, case):
+    if case.get("kind") == "fault-history":
+        from . import faults
+        faults.replay(ctx, case)
+        return
     k = case["kind"]
     if k == "interleaved":
         from .purity import interleaved_pure
